@@ -1739,4 +1739,9 @@ def multi_host_crash(rng):
                     steps += [["sync_all", h, 1], ["sync_dir", h, parent(p)]]
     cfg = dict(c["cfg"])
     cfg.update({"via": "sim", "block_size": None, "sync_prob": 0.0, "reg_rev": rng.random() < 0.5})
-    return {"cfg": cfg, "steps": steps, "flavour": "multi-host-crash+Sim::crash"}
+    fl = "multi-host-crash+Sim::crash"
+    if rng.random() < 0.6:
+        # the software owns a flusher whose destructor still writes (unsynced) while the host is torn down
+        cfg["drop_ops"] = [["spit", p, [200, 201, 202]] for p in rng.sample(FILES, 2)]
+        fl += "+destructor-writes"
+    return {"cfg": cfg, "steps": steps, "flavour": fl}
